@@ -142,3 +142,7 @@ def run(chk):
     r2_matches_every_prefix(chk)
     r3_filter_guards_enqueue(chk)
     r4_pub_never_waits(chk)
+    from rules import common
+    r5 = chk.rule("R5", "no subscription count update is decided by a separate load", "T7 atomic check-then-act",
+                  "in SubscriptionTrie no fetch_add/fetch_sub/store on a node count is guarded by an earlier plain load() of that count: subscribe/unsubscribe run under read locks, so two callers would both pass the load")
+    common.rule_no_atomic_check_then_act(chk, r5, r"patterns::trie::", floor_atomics=6)
